@@ -73,7 +73,7 @@ def try_replay(ctx, repo, res):
     # re-pose with concrete list lengths 0..3 (quantifier-free) to obtain models where the solver gave none
     if len(cands) < 3:
         for n in range(0, 4):
-            r2 = verify(qual, repo, ctx=ctx, bound=n)
+            r2 = verify(qual, repo, ctx=ctx, bound=n, fast=True)
             for o in r2["obligations"]:
                 if o["result"] == "sat" and o.get("model") and "decode_error" not in o["model"]:
                     cands.append((o["name"] + f"@len={n}", o["model"]))
@@ -126,6 +126,18 @@ def check_property(prop, tier="quick", seed=0, repo=None, spec=None):
     n_obl = len(obligations)
     n_dis = sum(1 for o in obligations if o["result"] == "unsat")
     refuted = [r for r in results if r["status"] == "refuted"]
+    # an undecided obligation may still hide a real failure: look for a replaying input with list lengths fixed to 0..3
+    for r in results:
+        if r["status"] == "undecided" and r["obligations"] and not r.get("error"):
+            rp, tried = try_replay(ctx, repo, r)
+            if rp:
+                r["status"] = "refuted"
+                r["replayed"] = rp
+                for o in r["obligations"]:
+                    if o["result"] == "unknown":
+                        o["result"] = "sat"
+                        o["backend"] = "bounded-instance+replay"
+                refuted.append(r)
     undecided = [r for r in results if r["status"] == "undecided"] + [{"qual": o["name"], "error": "lemma " + o["result"]} for o in lem if o["result"] == "unknown"]
     errors = [r for r in results if r["status"] == "error"] + [{"qual": o["name"], "error": o["text"]} for o in lem if o["result"] == "error"]
     lemma_refuted = [o for o in lem if o["result"] == "sat"]
@@ -166,7 +178,7 @@ def check_property(prop, tier="quick", seed=0, repo=None, spec=None):
                 known_hit.append((k, {"obligation": o["name"]}))
         if not fresh_failed:
             continue
-        rp, tried = try_replay(ctx, repo, r)
+        rp, tried = (r["replayed"], 1) if r.get("replayed") else try_replay(ctx, repo, r)
         name = fresh_failed[0]["name"]
         safe = name.replace("/", "_").replace(":", "_").replace("[", "_").replace("]", "_")[:120]
         path = os.path.join("replays", f"{prop}-{safe}.json")
